@@ -10,7 +10,286 @@ use crate::hist::{self, Profile};
 use crate::hist_enc::{self, EProfile};
 use std::time::Instant;
 
-pub const RULE: &str = "case = decoder history / encoder history / mem call with source and destination carved out of larger buffers at alignments 0..15 with 32-unit guard bands, destination lengths from the documented minimum upward, arbitrary prior converter state (reached by the history), arbitrary contents; documented preconditions are respected by the generator. Oracle (invariant per call) = read <= src.len(), written <= dst.len(), guard bands intact, source unchanged, InputEmpty only with read == src.len(), encoder read ends on a character boundary, no panic, String/Vec variants keep pointer, capacity and old contents. Half of the cases place the source and the slice destination against PROT_NONE guard pages (end of the buffer at the page boundary, or start right after one), so an out-of-bounds READ or write - also through raw pointers or SIMD loads - is a fault in every build, reported with the case as replay; the AddressSanitizer fuzz targets (fuzz/, thorough) add exact-size heap allocations. Non-trivial = input with a non-ASCII unit or a length that is not a multiple of 16; distinct = distinct case.";
+pub const RULE: &str = "case = decoder history / encoder history / mem call with source and destination carved out of larger buffers at alignments 0..15 with 32-unit guard bands, destination lengths from the documented minimum upward, arbitrary prior converter state (reached by the history), arbitrary contents; documented preconditions are respected by the generator. Oracle (invariant per call) = read <= src.len(), written <= dst.len(), guard bands intact, source unchanged, InputEmpty only with read == src.len(), encoder read ends on a character boundary, no panic, String/Vec variants keep pointer, capacity and old contents. Half of the cases place the source and the slice destination against PROT_NONE guard pages (end of the buffer at the page boundary, or start right after one), so an out-of-bounds READ or write - also through raw pointers or SIMD loads - is a fault in every build, reported with the case as replay; the AddressSanitizer fuzz targets (fuzz/, thorough) add exact-size heap allocations. A separate family offers destinations BELOW the documented minimum (0..=3 bytes, 0..=1 units, 0..=13 bytes with encoder replacement): there a panic or a no-progress OutputFull is accepted, a write outside the destination, read > src.len() or written > dst.len() is not. Non-trivial = input with a non-ASCII unit or a length that is not a multiple of 16; distinct = distinct case.";
+
+const UBAND: usize = 48;
+
+/// Destinations BELOW the documented minimum (decoders: 0..=3 bytes / 0..=1 units; encoders:
+/// 0..=3 bytes raw, 0..=13 with replacement).  Such a call may panic (a precondition panic) or
+/// report OutputFull without progress; what C06 still demands for "any destination length
+/// including zero" is that nothing outside the destination is written, the source is not
+/// modified and, when the call returns, read <= src.len() and written <= dst.len().
+/// `first_small`: the first chunk also gets the short destination (otherwise an ample one, which
+/// is how a converter reaches a mid-sequence state before it meets the short destination).
+fn undersized_dec(enc: &'static encoding_rs::Encoding, sniff: bool, method: u8, stream: &[u8], cut: usize, dlen: usize, first_small: bool) -> Option<String> {
+    let mut d = if sniff { enc.new_decoder() } else { enc.new_decoder_without_bom_handling() };
+    let chunks: [(&[u8], bool); 2] = [(&stream[..cut], false), (&stream[cut..], true)];
+    let mut buf8 = vec![0u8; UBAND * 2 + 96];
+    let mut buf16 = vec![0u16; UBAND * 2 + 96];
+    for (ci, (chunk, last)) in chunks.iter().enumerate() {
+        let mut off = 0usize;
+        for _call in 0..12 {
+            let dl = if ci == 1 || first_small { dlen } else { 64 };
+            let dl = if method >= 3 { dl.min(64) / if ci == 1 || first_small { 2 } else { 1 } } else { dl };
+            let src: Vec<u8> = chunk[off..].to_vec();
+            let src_copy = src.clone();
+            for b in buf8.iter_mut() {
+                *b = 0xC9;
+            }
+            for b in buf16.iter_mut() {
+                *b = 0xC9C9;
+            }
+            if method == 2 {
+                // &mut str destination: valid filler
+                for b in buf8[UBAND..UBAND + dl].iter_mut() {
+                    *b = b'x';
+                }
+            }
+            let dsc = crate::guard::Desc { what: "decode into a destination below the documented minimum", encoding: enc.name(), data: src.as_ptr(), len: src.len() };
+            let _g = crate::guard::enter(&dsc);
+            let r = fw::catch(|| match method {
+                0 => {
+                    let (r, rd, wr, _) = d.decode_to_utf8(&src, &mut buf8[UBAND..UBAND + dl], *last);
+                    (matches!(r, encoding_rs::CoderResult::InputEmpty), false, rd, wr)
+                }
+                1 => {
+                    let (r, rd, wr) = d.decode_to_utf8_without_replacement(&src, &mut buf8[UBAND..UBAND + dl], *last);
+                    (matches!(r, encoding_rs::DecoderResult::InputEmpty), matches!(r, encoding_rs::DecoderResult::Malformed(..)), rd, wr)
+                }
+                2 => {
+                    // SAFETY: the window was filled with ASCII above
+                    let s = unsafe { std::str::from_utf8_unchecked_mut(&mut buf8[UBAND..UBAND + dl]) };
+                    let (r, rd, wr, _) = d.decode_to_str(&src, s, *last);
+                    (matches!(r, encoding_rs::CoderResult::InputEmpty), false, rd, wr)
+                }
+                3 => {
+                    let (r, rd, wr, _) = d.decode_to_utf16(&src, &mut buf16[UBAND..UBAND + dl], *last);
+                    (matches!(r, encoding_rs::CoderResult::InputEmpty), false, rd, wr)
+                }
+                _ => {
+                    let (r, rd, wr) = d.decode_to_utf16_without_replacement(&src, &mut buf16[UBAND..UBAND + dl], *last);
+                    (matches!(r, encoding_rs::DecoderResult::InputEmpty), matches!(r, encoding_rs::DecoderResult::Malformed(..)), rd, wr)
+                }
+            });
+            let what = |m: &str| {
+                Some(format!(
+                    "{} into a {}-unit destination (src = [{}], last = {}, fed before: [{}]): {}{}",
+                    ["decode_to_utf8", "decode_to_utf8_without_replacement", "decode_to_str", "decode_to_utf16", "decode_to_utf16_without_replacement"][method as usize],
+                    dl,
+                    fw::hex(&src_copy),
+                    last,
+                    fw::hex(&stream[..(if ci == 0 { off } else { cut + off })]),
+                    m,
+                    match &r {
+                        Ok(_) => String::new(),
+                        Err(p) => format!(" (the call panicked: {})", p),
+                    }
+                ))
+            };
+            if method <= 2 {
+                if buf8[..UBAND].iter().any(|b| *b != 0xC9) || buf8[UBAND + dl..].iter().any(|b| *b != 0xC9) {
+                    let lo = buf8[..UBAND].iter().rposition(|b| *b != 0xC9).map(|p| UBAND - p);
+                    let hi = buf8[UBAND + dl..].iter().rposition(|b| *b != 0xC9).map(|p| p + 1);
+                    return what(&format!("bytes outside the destination were written (up to {:?} before / {:?} after it)", lo, hi));
+                }
+            } else if buf16[..UBAND].iter().any(|b| *b != 0xC9C9) || buf16[UBAND + dl..].iter().any(|b| *b != 0xC9C9) {
+                return what("code units outside the destination were written");
+            }
+            if src != src_copy {
+                return what("the source was modified");
+            }
+            match r {
+                Err(_) => return None,
+                Ok((input_empty, malformed, read, written)) => {
+                    if read > src.len() {
+                        return what(&format!("read = {} exceeds the source length {}", read, src.len()));
+                    }
+                    if written > dl {
+                        return what(&format!("written = {} exceeds the destination length {}", written, dl));
+                    }
+                    if input_empty && read != src.len() {
+                        return what(&format!("InputEmpty with read = {} of {}", read, src.len()));
+                    }
+                    off += read;
+                    if input_empty {
+                        break;
+                    }
+                    if read == 0 && written == 0 && !malformed {
+                        return None;
+                    }
+                }
+            }
+        }
+    }
+    None
+}
+
+fn undersized_enc(enc: &'static encoding_rs::Encoding, utf16: bool, repl: bool, text: &[u32], cut: usize, dlen: usize, first_small: bool) -> Option<String> {
+    let mut e = enc.new_encoder();
+    let mut buf8 = vec![0u8; UBAND * 2 + 128];
+    let chunks: [(&[u32], bool); 2] = [(&text[..cut], false), (&text[cut..], true)];
+    for (ci, (chunk, last)) in chunks.iter().enumerate() {
+        let st: String = chunk.iter().map(|c| char::from_u32(*c).unwrap()).collect();
+        let s16: Vec<u16> = st.encode_utf16().collect();
+        let total = if utf16 { s16.len() } else { st.len() };
+        let mut off = 0usize;
+        for _call in 0..16 {
+            let dl = if ci == 1 || first_small { dlen } else { 96 };
+            for b in buf8.iter_mut() {
+                *b = 0xC9;
+            }
+            let r = fw::catch(|| {
+                let dst = &mut buf8[UBAND..UBAND + dl];
+                if repl {
+                    let (r, rd, wr, _) = if utf16 { e.encode_from_utf16(&s16[off..], dst, *last) } else { e.encode_from_utf8(&st[off..], dst, *last) };
+                    (matches!(r, encoding_rs::CoderResult::InputEmpty), false, rd, wr)
+                } else {
+                    let (r, rd, wr) = if utf16 { e.encode_from_utf16_without_replacement(&s16[off..], dst, *last) } else { e.encode_from_utf8_without_replacement(&st[off..], dst, *last) };
+                    (matches!(r, encoding_rs::EncoderResult::InputEmpty), matches!(r, encoding_rs::EncoderResult::Unmappable(..)), rd, wr)
+                }
+            });
+            let what = |m: &str| {
+                Some(format!(
+                    "encode_from_{}{} into a {}-byte destination (chunk #{} of text [{}] cut at {}, offset {}, last = {}): {}{}",
+                    if utf16 { "utf16" } else { "utf8" },
+                    if repl { "" } else { "_without_replacement" },
+                    dl,
+                    ci,
+                    fw::hex32(text),
+                    cut,
+                    off,
+                    last,
+                    m,
+                    match &r {
+                        Ok(_) => String::new(),
+                        Err(p) => format!(" (the call panicked: {})", p),
+                    }
+                ))
+            };
+            if buf8[..UBAND].iter().any(|b| *b != 0xC9) || buf8[UBAND + dl..].iter().any(|b| *b != 0xC9) {
+                return what("bytes outside the destination were written");
+            }
+            match r {
+                Err(_) => return None,
+                Ok((input_empty, unmappable, read, written)) => {
+                    if read > total - off {
+                        return what(&format!("read = {} exceeds the source length {}", read, total - off));
+                    }
+                    if written > dl {
+                        return what(&format!("written = {} exceeds the destination length {}", written, dl));
+                    }
+                    if !utf16 && !st.is_char_boundary(off + read) {
+                        return what(&format!("read = {} ends inside a character", read));
+                    }
+                    if input_empty && off + read != total {
+                        return what(&format!("InputEmpty with {} of {} units read", off + read, total));
+                    }
+                    off += read;
+                    if input_empty {
+                        break;
+                    }
+                    if read == 0 && written == 0 && !unmappable {
+                        return None;
+                    }
+                }
+            }
+        }
+    }
+    None
+}
+
+fn undersized(ctx: &Ctx) -> fw::Stats {
+    use crate::model_dec::algo_for;
+    use serde_json::json;
+    let all = encs::all();
+    let thorough = ctx.tier == fw::Tier::Thorough;
+    let mut total = fw::par_run(ctx, all.len() * 2, |part, st| {
+        let enc = all[part / 2];
+        let sniff = part % 2 == 1;
+        let algo = algo_for(enc);
+        let mut streams = hist::core_streams(algo, if thorough { 6 } else { 5 }, false);
+        if sniff {
+            for b in crate::gen::BOMISH {
+                for tail in [&b""[..], b"a", b"\xE4"] {
+                    streams.push([b, tail].concat());
+                }
+            }
+        }
+        for stream in &streams {
+            if fw::should_stop() {
+                return;
+            }
+            for cut in 0..=stream.len() {
+                for method in 0..5u8 {
+                    for dlen in 0..=(if method >= 3 { 1usize } else { 3 }) {
+                        for first_small in [false, true] {
+                            st.evals += 1;
+                            if !stream.is_empty() {
+                                st.nontrivial_distinct();
+                            }
+                            st.class("decoder-destination-below-the-documented-minimum");
+                            let dl = if method >= 3 { dlen * 2 } else { dlen };
+                            if let Some(msg) = undersized_dec(enc, sniff, method, stream, cut, dl, first_small) {
+                                st.violations.push(fw::Violation {
+                                    msg: format!("{} [{}]: {}", enc.name(), if sniff { "sniffing" } else { "no BOM handling" }, msg),
+                                    sig: "C06:undersized-dec".into(),
+                                    case: json!({"kind": "c06_undersized_dec", "encoding": encs::const_name(enc), "sniff": sniff, "method": method, "stream_hex": fw::hex(stream), "cut": cut, "dst_len": dl, "first_small": first_small}),
+                                });
+                                return;
+                            }
+                        }
+                    }
+                }
+            }
+        }
+        st.sample(1, || json!({"kind": "c06_undersized_dec", "encoding": encs::const_name(enc), "sniff": sniff, "streams": streams.len(), "methods": 5, "dst_len": "0..=3 bytes / 0..=1 units"}));
+    });
+    total.exhaustive.push("decoders: 40 encodings x with/without sniffing x every atom and atom pair (up to 5 bytes) x every cut incl. the empty final call x 5 slice/str methods x every destination length below the documented minimum".into());
+    if fw::should_stop() {
+        return total;
+    }
+    let ee = encs::all();
+    let st2 = fw::par_run(ctx, ee.len(), |part, st| {
+        let enc = ee[part];
+        let alpha: Vec<u32> = hist_enc::alphabet(enc).into_iter().filter(|c| !crate::drive_enc::is_sur(*c)).collect();
+        let mut texts: Vec<Vec<u32>> = alpha.iter().map(|c| vec![*c]).collect();
+        for a in &alpha {
+            for b in &alpha {
+                texts.push(vec![*a, *b]);
+            }
+        }
+        for text in &texts {
+            if fw::should_stop() {
+                return;
+            }
+            for cut in 0..=text.len() {
+                for utf16 in [false, true] {
+                    for repl in [false, true] {
+                        let dls: &[usize] = if repl { &[0, 1, 2, 3, 5, 9, 10, 11, 12, 13] } else { &[0, 1, 2, 3] };
+                        for &dlen in dls {
+                            for first_small in [false, true] {
+                                st.evals += 1;
+                                st.nontrivial_distinct();
+                                st.class("encoder-destination-below-the-documented-minimum");
+                                if let Some(msg) = undersized_enc(enc, utf16, repl, text, cut, dlen, first_small) {
+                                    st.violations.push(fw::Violation {
+                                        msg: format!("{}: {}", enc.name(), msg),
+                                        sig: "C06:undersized-enc".into(),
+                                        case: json!({"kind": "c06_undersized_enc", "encoding": encs::const_name(enc), "utf16": utf16, "replacement": repl, "text_hex": fw::hex32(text), "cut": cut, "dst_len": dlen, "first_small": first_small}),
+                                    });
+                                    return;
+                                }
+                            }
+                        }
+                    }
+                }
+            }
+        }
+    });
+    total.merge(st2);
+    total.exhaustive.push("encoders: 40 encodings x every alphabet character and pair x every cut x UTF-8/UTF-16 source x raw (destinations 0..=3) / replacement (0..=13)".into());
+    total
+}
 
 pub fn run(ctx: &Ctx) -> i32 {
     let t0 = Instant::now();
@@ -39,6 +318,9 @@ pub fn run(ctx: &Ctx) -> i32 {
         mixed_all: false,
     };
     let mut st = dech::run_dec_check(ctx, &dc);
+    if !fw::should_stop() {
+        st.merge(undersized(ctx));
+    }
     if !fw::should_stop() {
         let ec = EncCheck {
             verdict: &ench::verdict_c06,
@@ -76,6 +358,20 @@ pub fn replay(case: &serde_json::Value) -> Option<Vec<fw::Violation>> {
         Some("mem") => memfam::replay_mem(case, "C06", false),
         Some("enc_history") => ench::replay_with(case, &ench::verdict_c06),
         Some("dec_history") => dech::replay_with(case, &dech::verdict_c06),
+        Some("c06_undersized_dec") => {
+            let enc = encs::by_const(case.get("encoding")?.as_str()?)?;
+            let stream = fw::unhex(case.get("stream_hex")?.as_str()?);
+            let cut = (case.get("cut")?.as_u64()? as usize).min(stream.len());
+            let r = undersized_dec(enc, case.get("sniff")?.as_bool()?, case.get("method")?.as_u64()? as u8, &stream, cut, case.get("dst_len")?.as_u64()? as usize, case.get("first_small")?.as_bool()?);
+            Some(r.map(|m| vec![fw::Violation { msg: format!("{}: {}", enc.name(), m), sig: "C06:undersized-dec".into(), case: case.clone() }]).unwrap_or_default())
+        }
+        Some("c06_undersized_enc") => {
+            let enc = encs::by_const(case.get("encoding")?.as_str()?)?;
+            let text = fw::unhex32(case.get("text_hex")?.as_str()?);
+            let cut = (case.get("cut")?.as_u64()? as usize).min(text.len());
+            let r = undersized_enc(enc, case.get("utf16")?.as_bool()?, case.get("replacement")?.as_bool()?, &text, cut, case.get("dst_len")?.as_u64()? as usize, case.get("first_small")?.as_bool()?);
+            Some(r.map(|m| vec![fw::Violation { msg: format!("{}: {}", enc.name(), m), sig: "C06:undersized-enc".into(), case: case.clone() }]).unwrap_or_default())
+        }
         _ => None,
     }
 }
